@@ -39,27 +39,49 @@ ldb_filemeta_t g_fk, g_fj, g_fo;         /* tracked file k, tracked file j, shar
 size_t g_n, g_k, g_j;                    /* length of the list under test, tracked positions       */
 int g_lvl;                               /* level whose list is under test                         */
 uint8_t g_tok[16];                       /* data tokens: identify whose key a slice is a copy of   */
-size_t g_ucalls, g_icalls;               /* comparator call counters                               */
-const uint8_t *g_last_x, *g_last_y;      /* data tokens of the last comparison's operands          */
-size_t g_last_xsize; int g_last_res;     /* size field of its left operand, its result             */
+/* ghost records are structs so that a loop / function contract names ONE assigns target per record (dfcc cost grows with the number of targets) */
+struct veru_cmp_s { size_t ucalls, icalls;            /* comparator call counters                               */
+                    const uint8_t *last_x, *last_y;   /* data tokens of the last comparison's operands          */
+                    size_t last_xsize; int last_res;  /* size field of its left operand, its result             */
+} g_c;
+#define g_ucalls g_c.ucalls
+#define g_icalls g_c.icalls
+#define g_last_x g_c.last_x
+#define g_last_y g_c.last_y
+#define g_last_xsize g_c.last_xsize
+#define g_last_res g_c.last_res
 /* result-vector model (ldb_vector_push / reset with preallocated storage) */
 ldb_vector_t *g_vec;                     /* the vector the code under test may append to           */
-size_t g_pk, g_pj, g_posk, g_posj;       /* appends of the tracked files since the last reset, their positions */
-size_t g_pushes, g_resets;
+struct veru_vec_s { size_t pk, pj, posk, posj;        /* appends of the tracked files since the last reset, their positions */
+                    size_t pushes, resets; } g_v;
+#define g_pk g_v.pk
+#define g_pj g_v.pj
+#define g_posk g_v.posk
+#define g_posj g_v.posj
+#define g_pushes g_v.pushes
+#define g_resets g_v.resets
 /* range ghosts (all named in loops/veru.json, which is applied to every unit of the group) */
 ldb_slice_t g_lo, g_hi; int g_has_lo, g_has_hi;   /* ver.overlap.*: user-key bounds, NULL = infinite          */
 int g_ovk;                               /* ver.overlap.*: the tracked file exists and overlaps [lo, hi]        */
 ldb_ikey_t g_bk, g_ek; ldb_vector_t g_inputs;     /* ver.inputs.*: begin / end internal keys, result vector    */
 size_t g_lo_r, g_hi_r;                   /* user ranks of the requested bounds                                  */
-size_t g_xb, g_xe;                       /* mirror of the current (expanded) range                              */
-const uint8_t *g_xb_tok, *g_xe_tok;      /* whose key the current bound is a copy of                            */
+struct veru_rng_s { size_t xb, xe;                    /* mirror of the current (expanded) range                              */
+                    const uint8_t *xb_tok, *xe_tok; } g_r; /* whose key the current bound is a copy of                      */
+#define g_xb g_r.xb
+#define g_xe g_r.xe
+#define g_xb_tok g_r.xb_tok
+#define g_xe_tok g_r.xe_tok
+/* ver.live: */
+ldb_version_t g_va, g_vb;                /* windows: every version before / after the tracked one on the ring       */
+void **g_oitems; size_t g_ocap;          /* a list of g_ocap entries, all &g_fo: backing store of every untracked list */
+rb_set64_t g_live; uint64_t g_q; int g_q_in; size_t g_puts;
 /* ver.boundary.*: */
 ldb_filemeta_t g_fc, g_fcj;              /* compaction-set list: its first-maximum file, an arbitrary second file   */
 const ldb_vector_t *g_cfiles; size_t g_cn, g_ck, g_cj;   /* that list, its length, positions of g_fc / g_fcj           */
 ldb_slice_t g_out;                       /* find_largest_key result                                                */
 size_t g_kuk; uint64_t g_ktag;           /* ranks of the probe key of find_smallest_boundary_file                   */
 int g_world_fixed;                       /* 1: the caller fixed the boundary witness (g_k, g_fk); 0: the contract picks it */
-ldb_vector_t g_cfv; int g_store_unbounded;
+ldb_vector_t g_cfv; int g_store_unbounded; size_t g_cn0;
 size_t g_ca; void *g_caval;              /* an arbitrary position of the given compaction set and what it held      */
 
 #define TOK_KS (g_tok + 0)
@@ -117,9 +139,11 @@ void ldb_ikey_set(ldb_ikey_t *ikey, const ldb_slice_t *user_key, uint64_t sequen
 void ldb_ikey_clear(ldb_ikey_t *ikey) { ikey->data = NULL; ikey->size = 0; ikey->alloc = 0; }
 void ldb_log(ldb_logger_t *logger, const char *fmt, ...) { }
 
-#define CMP_GHOST g_ucalls, g_icalls, g_last_x, g_last_y, g_last_xsize, g_last_res
-#define FO_WINDOW g_fo.smallest.size, g_fo.smallest.alloc, g_fo.largest.size, g_fo.largest.alloc, g_fo.number, g_fo.file_size
-#define VEC_GHOST g_pk, g_pj, g_posk, g_posj, g_pushes, g_resets
+#define CMP_GHOST g_c
+#define FO_WINDOW g_fo
+#define VEC_GHOST g_v
+/* a contract that lists the window g_fo in its assigns clause restates which keys it stands for */
+#define FO_TOKENS (g_fo.smallest.data == TOK_OS && g_fo.largest.data == TOK_OL)
 
 /* util/vector.c is not linked.  dfcc forbids heap allocation inside a loop that is under a loop contract: vectors the code
    under test appends to have preallocated storage (the harness sizes it for the longest possible result), push never
